@@ -238,12 +238,42 @@ static FWire dispatch(const std::string& comp,Reader& r,FReader&) {
         A.svd(U,S,V);
         double smax = 0.0, smin = 1e300;
         for (unsigned i=0;i<n;++i) { const double x = S(i,i); smax = std::max(smax,x); smin = std::min(smin,x); }
-        double resid = -1.0;
+        // The inverse the way a user obtains it (both public routes), on the SAME object A afterwards:
+        //   Ainv = A.inverse() [const];  A must be bitwise unchanged;  A*Ainv = I;   B = copy(A); B.invert(); A*B = I;  B == Ainv
+        //   x = A.solveLin(b) (Vector, Matrix and Vector* forms): A unchanged, residuals.
+        double resid = -1.0, resid_inplace = -1.0, routes_diff = -1.0, solve_res = -1.0, solve_err = -1.0; ll recv_changed = 0;
         if (smin>1e-10*smax) {
-            SymMatrix Hi(H,DEEP_COPY); Hi.invert();
-            Matrix P = Matrix(H)*Matrix(Hi);
-            resid = 0.0;
-            for (unsigned i=0;i<n;++i) for (unsigned j=0;j<n;++j) resid = std::max(resid,std::fabs(P(i,j)-(i==j ? 1.0 : 0.0)));
+            const std::vector<double> snap(H.data(),H.data()+H.size());
+            auto unchanged = [&]() { return std::memcmp(snap.data(),H.data(),snap.size()*sizeof(double))==0; };
+            auto identity_gap = [&](const Matrix& P) { double g = 0.0; for (unsigned i=0;i<n;++i) for (unsigned j=0;j<n;++j) g = std::max(g,std::fabs(P(i,j)-(i==j ? 1.0 : 0.0))); return g; };
+            const SymMatrix& cH = H;
+            const SymMatrix Ainv = cH.inverse();
+            if (!unchanged()) recv_changed |= 1;
+            resid = identity_gap(H*Ainv);                      // the same object H, after the call
+            SymMatrix Bi(n); for (size_t k=0;k<snap.size();++k) Bi.data()[k] = snap[k];
+            Bi.invert();
+            { SymMatrix A0(n); for (size_t k=0;k<snap.size();++k) A0.data()[k] = snap[k]; resid_inplace = identity_gap(A0*Bi); }
+            double amax = 0.0; routes_diff = 0.0;
+            for (size_t k=0;k<Ainv.size();++k) { amax = std::max(amax,std::fabs(Bi.data()[k])); routes_diff = std::max(routes_diff,std::fabs(Bi.data()[k]-Ainv.data()[k])); }
+            routes_diff /= (amax>0 ? amax : 1.0);
+            // solveLin against a known solution, original matrix rebuilt from the snapshot
+            SymMatrix A1(n); for (size_t k=0;k<snap.size();++k) A1.data()[k] = snap[k];
+            const std::vector<double> snap1(A1.data(),A1.data()+A1.size());
+            Vector x0(n); for (unsigned i=0;i<n;++i) x0(i) = 1.0+(i%7)*0.25;
+            const Vector b = A1*x0;
+            const SymMatrix& cA1 = A1;
+            const Vector x = cA1.solveLin(b);
+            Matrix RB(n,2); for (unsigned i=0;i<n;++i) { RB(i,0) = b(i); RB(i,1) = 2.0*b(i); }
+            const Matrix X2 = cA1.solveLin(RB);
+            Vector bv[1] = { Vector(b,DEEP_COPY) }; A1.solveLin(bv,1);
+            if (std::memcmp(snap1.data(),A1.data(),snap1.size()*sizeof(double))!=0) recv_changed |= 2;
+            const Vector r1 = A1*x-b;
+            double bn = 0.0, xn = 0.0; solve_res = 0.0; solve_err = 0.0;
+            for (unsigned i=0;i<n;++i) { bn = std::max(bn,std::fabs(b(i))); xn = std::max(xn,std::fabs(x0(i))); }
+            for (unsigned i=0;i<n;++i) {
+                solve_res = std::max(solve_res,std::fabs(r1(i))/bn);
+                solve_err = std::max(solve_err,std::max(std::fabs(x(i)-x0(i)),std::max(std::fabs(X2(i,0)-x0(i)),std::max(std::fabs(X2(i,1)-2.0*x0(i))/2.0,std::fabs(bv[0](i)-x0(i)))))/xn);
+            }
         }
         // cavity walls (theorem cavity_wall_indicator_in_kernel): current barrier, not isolated, not deflated
         double hmax = 0.0; for (size_t k=0;k<H.size();++k) hmax = std::max(hmax,std::fabs(H.data()[k]));
@@ -260,8 +290,8 @@ static FWire dispatch(const std::string& comp,Reader& r,FReader&) {
                 cav = std::max(cav,std::fabs(s)/hmax);
             }
         }
-        out.z = Wire{ST_OK,(ll)n,npot,ndefl,(ll)geo.isolated_parts().size(),(ll)geo.meshes().size(),ncav};
-        out.f = { worst, smin, smax, resid, cav };
+        out.z = Wire{ST_OK,(ll)n,npot,ndefl,(ll)geo.isolated_parts().size(),(ll)geo.meshes().size(),ncav,recv_changed};
+        out.f = { worst, smin, smax, resid, cav, resid_inplace, routes_diff, solve_res, solve_err };
         return out;
     }
     throw Reader::Malformed();
